@@ -34,11 +34,13 @@ def default_family():
 
 
 # ------------------------------------------------------------------ cursor sources
-POOL_KEYS = ["a", "b", "j", "f"]
+POOL_KEYS = ["a", "b", "j", "f", "c", "d"]
 
 
 def make_pool():
-    """40 rows (a, b, j, f) with many duplicates, NULLs and unhashable JSON values."""
+    """40 rows (a, b, j, f, c, d) with many duplicates, NULLs and unhashable JSON values.
+    c (ints >= 100) and d ("d<n>" strings) never hold a value another column can hold, so a
+    projection that picks the wrong column is visible in the values."""
     pool = []
     js = [None, None, None, [1], {"k": 1}, None, None, [1], None, None]
     for i in range(40):
@@ -46,7 +48,7 @@ def make_pool():
         b = ["x", "x", "y", None, "y", "x"][i % 6] if i % 11 else "x"
         j = js[(i * 7) % 10] if i >= 12 else None
         f = [True, True, False, None][(i // 2) % 4]
-        pool.append((a, b, j, f))
+        pool.append((a, b, j, f, 100 + (i // 2) % 5, "d%d" % ((i // 2) % 4)))
     return pool
 
 
@@ -62,14 +64,14 @@ class CursorEnv:
         md = sa.MetaData()
         self.t = sa.Table("pool", md, sa.Column("id", sa.Integer, primary_key=True), sa.Column("a", sa.Integer),
                           sa.Column("b", sa.String(10)), sa.Column("j", sa.JSON(none_as_null=True)),
-                          sa.Column("f", sa.Boolean))
+                          sa.Column("f", sa.Boolean), sa.Column("c", sa.Integer), sa.Column("d", sa.String(10)))
         self.t2 = sa.Table("scratch", md, sa.Column("id", sa.Integer, primary_key=True), sa.Column("a", sa.Integer),
                            sa.Column("b", sa.String(10)), sa.Column("j", sa.JSON(none_as_null=True)),
-                           sa.Column("f", sa.Boolean))
+                           sa.Column("f", sa.Boolean), sa.Column("c", sa.Integer), sa.Column("d", sa.String(10)))
         self.pool = make_pool()
         self.conn = self.engine.connect()
         md.create_all(self.conn)
-        self.conn.execute(self.t.insert(), [dict(id=i + 1, a=r[0], b=r[1], j=r[2], f=r[3]) for i, r in enumerate(self.pool)])
+        self.conn.execute(self.t.insert(), [dict(id=i + 1, a=r[0], b=r[1], j=r[2], f=r[3], c=r[4], d=r[5]) for i, r in enumerate(self.pool)])
         self.conn.commit()
 
     def rows(self, spec):
@@ -84,10 +86,10 @@ class CursorEnv:
         st = spec["strategy"]
         if st == "returning":
             rows = spec["rows"]
-            stmt = self.t2.insert().returning(self.t2.c.a, self.t2.c.b, self.t2.c.j, self.t2.c.f,
-                                              sort_by_parameter_order=True)
-            return self.conn.execute(stmt, [dict(a=r[0], b=r[1], j=r[2], f=r[3]) for r in rows])
-        stmt = sa.select(t.c.a, t.c.b, t.c.j, t.c.f).order_by(t.c.id).limit(spec["limit"]).offset(spec["offset"])
+            t2 = self.t2
+            stmt = t2.insert().returning(t2.c.a, t2.c.b, t2.c.j, t2.c.f, t2.c.c, t2.c.d, sort_by_parameter_order=True)
+            return self.conn.execute(stmt, [dict(a=r[0], b=r[1], j=r[2], f=r[3], c=r[4], d=r[5]) for r in rows])
+        stmt = sa.select(t.c.a, t.c.b, t.c.j, t.c.f, t.c.c, t.c.d).order_by(t.c.id).limit(spec["limit"]).offset(spec["offset"])
         if st == "yield":
             # statement-level option: Connection.execution_options() is in-place in 2.x and
             # would leak into every later sequence
@@ -303,6 +305,10 @@ UNHASHABLE = [[1], {"k": 1}]
 
 
 def gen_rows(rng, n, ncols, p_unhashable=0.0):
+    if ncols >= 4:
+        # wide rows: value k*10+v in column k, so a wrong column shows in the value
+        base = [tuple(k * 10 + rng.randrange(3) for k in range(ncols)) for _ in range(max(1, n // 2 + 1))]
+        return [rng.choice(base) for _ in range(n)]
     base = [tuple(rng.choice(VALUE_POOL[: rng.choice([3, 5, 9])]) for _ in range(ncols)) for _ in range(max(1, n // 2 + 1))]
     rows = []
     for _ in range(n):
@@ -330,10 +336,10 @@ def gen_spec(rng, maxrows, cursor=True, pool_len=40):
         if st in ("buffered", "yield"):
             spec["n"] = rng.choice([1, 2, 5, 1000]) if st == "buffered" else rng.choice([1, 2, 3, 5])
         return spec
-    ncols = rng.choice([1, 2, 2, 3])
+    ncols = rng.choice([1, 2, 2, 3, 5])
     kind = "iter" if r < 0.7 else "chunked"
     n = rng.randint(0, maxrows)
-    spec = {"kind": kind, "keys": ["a", "b", "c"][:ncols],
+    spec = {"kind": kind, "keys": ["a", "b", "c", "d", "e"][:ncols],
             "rows": [list(x) for x in gen_rows(rng, n, ncols, p_unhashable=rng.choice([0, 0, 0, 0.15]))]}
     if kind == "chunked":
         if ncols == 1 and rng.random() < 0.4:
@@ -453,3 +459,91 @@ def exhaustive_sequences(tier, length):
     alpha = EXH_ALPHABET[tier]
     for n in range(1, length + 1):
         yield from itertools.product(range(len(alpha)), repeat=n)
+
+
+def projection_chain(rng, model, depth=None):
+    """2-3 chained projections on handle 'r': columns (by index / name / negative index,
+    reordering and dropping) then scalars / mappings(+columns) / another columns.  Yields
+    (hname, op) like random_sequence; the caller applies each op to the model."""
+    depth = depth or rng.choice([2, 3, 3])
+    last = "r"
+    for level in range(depth):
+        h = model.handles["r"]
+        nk = len(h.keys)
+        final = level == depth - 1
+
+        def pick(h, lo=1):
+            nk = len(h.keys)
+            k = rng.randint(min(lo, nk), nk)
+            cols = rng.sample(range(nk), k)
+            style = rng.random()
+            if style < 0.4:
+                return [h.keys[i] for i in cols]
+            if style < 0.55:
+                return [i - nk for i in cols]
+            if style < 0.7:
+                return [h.keys[i] if rng.random() < 0.5 else i for i in cols]
+            return cols
+
+        if not final:
+            op = ["columns", pick(h, lo=2 if nk > 2 else 1)]
+            if not model.allowed("r", op):
+                return
+            yield "r", op
+            continue
+        x = rng.random()
+        if x < 0.4:
+            i = rng.randrange(nk)
+            op = ["scalars", h.keys[i] if rng.random() < 0.5 else i, "ps"]
+            if not model.allowed("r", op):
+                return
+            yield "r", op
+            last = "ps"
+        elif x < 0.8:
+            if not model.allowed("r", ["mappings", "pm"]):
+                return
+            yield "r", ["mappings", "pm"]
+            last = "pm"
+            op = ["columns", pick(model.handles["pm"])]
+            if model.allowed("pm", op):
+                yield "pm", op
+        else:
+            op = ["columns", pick(h)]
+            if not model.allowed("r", op):
+                return
+            yield "r", op
+    for op in (rng.choice([["fetchone"], ["next"], ["fetchmany", 2], ["iter_take", 2]]), ["all"]):
+        if op[0] == "fetchone" and last == "ps":
+            op = ["next"]
+        if model.allowed(last, op):
+            yield last, op
+
+
+def exhaustive_projection_chains(keys):
+    """all chains P1 -> P2 -> P3 over a fixed family: P1 reorders / drops leading columns,
+    P2 reorders / drops again (by name and by position), P3 is scalars / mappings().columns /
+    columns by name and by position."""
+    n = len(keys)
+    p1s = [[n - 1, n - 2, 1], [3, 1, 0, 2], [n - 2, n - 1, 0, 1], [1, 2, 3], [n - 1, 0]]
+    chains = []
+    for p1 in p1s:
+        k1 = [keys[i] for i in p1]
+        m = len(p1)
+        p2s = [list(range(1, m)), list(range(m - 1, -1, -1)), [m - 1, 0], [0], [m - 1]]
+        for byname1 in (False, True):
+            for p2 in p2s:
+                k2 = [k1[i] for i in p2]
+                for byname2 in (False, True):
+                    first = ["columns", k1 if byname1 else list(p1)]
+                    second = ["columns", k2 if byname2 else list(p2)]
+                    q = len(p2)
+                    for j in sorted({0, q - 1}):
+                        for byname3 in (False, True):
+                            chains.append([("r", first), ("r", second), ("r", ["scalars", k2[j] if byname3 else j, "ps"]),
+                                           ("ps", ["all"])])
+                            chains.append([("r", first), ("r", second), ("r", ["mappings", "pm"]),
+                                           ("pm", ["columns", [k2[j]] if byname3 else [j]]), ("pm", ["all"])])
+                            chains.append([("r", first), ("r", second), ("r", ["columns", [k2[j]] if byname3 else [j]]),
+                                           ("r", ["all"])])
+                    chains.append([("r", first), ("r", second), ("r", ["fetchone"]), ("r", ["mappings", "pm"]), ("pm", ["all"])])
+    return chains
